@@ -64,6 +64,10 @@ def compile_installation(gen, ai):
         ab["fans"] = {k: bool(d["fans"] >> j & 1) for j, k in enumerate(fan_keys)}
         if gen == 4:
             ab["min_sp"], ab["max_sp"] = d["min"], d["max"]
+            if (sum(ai["parts"]) * 7 + len(ai["acs"])) % 2 == 0:
+                # the console sends the group bitmap; its legacy start/count bytes are
+                # leftovers that happen to name existing groups (also for a zone-less AC)
+                ab["start"], ab["count"] = 0, min(sum(ai["parts"]), 3)
         else:
             ab["fans"]["intelligent_auto"] = False
             ab["min_cool"] = ab["min_heat"] = d["min"]
